@@ -111,6 +111,16 @@ func main() {
 							locksRewritten++
 						}
 					}
+					// `X.Do(f)` as a statement (sync.Once): callers that arrive while another task is inside Do
+					// block on a mutex inside package sync, which the simulation cannot see. The call is
+					// bracketed by enter / exit hooks so that the scheduler serialises Do sections cooperatively.
+					if call, ok := es.X.(*ast.CallExpr); ok && len(call.Args) == 1 {
+						if sel, ok := call.Fun.(*ast.SelectorExpr); ok && sel.Sel.Name == "Do" {
+							ins = append(ins, insertion{off: pos.Offset, text: "func() { _vfOnceEnter(); defer _vfOnceExit(); ", ord: 1})
+							ins = append(ins, insertion{off: fset.Position(call.End()).Offset, text: " }()", ord: -2})
+							locksRewritten++
+						}
+					}
 				}
 			}
 		}
@@ -247,6 +257,21 @@ func _vfBlocked() {
 		return
 	}
 	runtime.Gosched()
+}
+
+// VfOnceEnter / VfOnceExit, when non-nil, bracket every X.Do(f) statement (simulation only).
+var VfOnceEnter, VfOnceExit func()
+
+func _vfOnceEnter() {
+	if f := VfOnceEnter; f != nil {
+		f()
+	}
+}
+
+func _vfOnceExit() {
+	if f := VfOnceExit; f != nil {
+		f()
+	}
 }
 
 // VfStep, when non-nil, is called before every statement of the library (simulation only).
